@@ -8,7 +8,7 @@ use crate::ours::{decode_from, encode, Container, Spec};
 use crate::util::{first_diff, Rng};
 use crate::walk;
 
-pub const STEER: u64 = 16;
+pub const STEER: u64 = 20;
 
 pub fn n_cases(ctx: &Ctx) -> u64 {
     let base = match (ctx.variant.as_str(), ctx.thorough()) {
@@ -114,6 +114,12 @@ fn steer_case(i: u64) -> Case {
         12 => (Container::Xz { check: 1, block: None, filters: vec![] }, o(3 << 19), Family::FarCopy, 3_000_000, 0),
         13 => (Container::Xz { check: 1, block: Some(1), filters: vec![] }, o(5000), Family::Sandwich, 200_000, 3000),
         14 => (Container::Lzip { member: Some(1) }, o((1 << 16) + 1), Family::Sandwich, 300_000, 0),
+        // blocks / members with more than 2 MiB of extremely compressible data: LZMA2 chunks that
+        // close on their uncompressed size limit (2 MiB) instead of on their compressed size
+        15 => (Container::Xz { check: 4, block: None, filters: vec![] }, o(1 << 16), Family::Constant, 5_000_000, 0),
+        16 => (Container::Xz { check: 1, block: Some(4 << 20), filters: vec![] }, on(1 << 16), Family::Periodic, 9_000_000, 1 << 20),
+        17 => (Container::Lzip { member: None }, o(1 << 16), Family::Constant, 5_000_000, 0),
+        18 => (Container::Xz { check: 0, block: None, filters: vec![(0x03, 1)] }, o(4096), Family::Constant, 3_000_000, 65536),
         _ => (Container::Xz { check: 4, block: None, filters: vec![] }, o(4096), Family::OneByte, 1, 0),
     };
     Case {
@@ -269,6 +275,10 @@ pub fn lzip_structure(bytes: &[u8], data: &[u8], dict_searched: u32) -> Result<u
 }
 
 pub fn run_case(ctx: &Ctx, idx: u64) -> Vec<CaseOut> {
+    crate::mt::watched(ctx, idx, "xz-lzip-round-trip", run_case_inner)
+}
+
+fn run_case_inner(ctx: &Ctx, idx: u64) -> Vec<CaseOut> {
     let case = make_case(ctx, idx);
     let mut dr = Rng::new(case.data_seed);
     let data = gen::gen_data(&mut dr, case.fam, case.len);
